@@ -512,6 +512,81 @@ theorem history_last_op_decides_any_handle (C : Codecs V P) (T : KindTable) (hT 
   have h2 := history_last_op_decides C T hT E hE f hf hp hx hid wn fresh (hops.map (·.2)) op hok st.1 st'.1 h1
   cases op <;> exact h2
 
+/-! #### several elements
+
+Each element of a model is a graph node of its own: an operation on element `a` goes to `a`'s stored properties and to
+nothing else.  The model has no other place where a value could live (no table of decoded objects shared by the
+elements that carry an equal text), so a history interleaved over any number of elements - of any classes - falls apart
+into the histories of the single elements.  On the implementation this is an oracle fact (`check_alias`: equal values
+on several elements, everything a getter hands out changed in place and written back, every other element compared
+with what its graph node holds); here it is what the refinement to the model means for several elements. -/
+
+/-- the elements of a model by number: stored properties, and the mapping table / class of each -/
+def runElems (C : Codecs V P) (T : Nat → KindTable) (E : Nat → ElemClass) (wn : String → V) (fresh : Fields V) (k : Key) :
+    List (Nat × PropOp V) → (Nat → Props P) → Except Err (Nat → Props P)
+  | [], s => .ok s
+  | hop :: rest, s =>
+    match stepOp C (T hop.1) (E hop.1) wn fresh k (s hop.1) hop.2 with
+    | .ok p' => runElems C T E wn fresh k rest (fun i => if i = hop.1 then p' else s i)
+    | .error e => .error e
+
+/-- **Elements do not share**: after any history interleaved over any elements, element `b` holds exactly what its own
+operations - in their order, all others left out - make of what it held before -/
+theorem elements_do_not_share (C : Codecs V P) (T : Nat → KindTable) (E : Nat → ElemClass) (wn : String → V) (fresh : Fields V)
+    (k : Key) (hops : List (Nat × PropOp V)) (s s' : Nat → Props P) (b : Nat)
+    (h : runElems C T E wn fresh k hops s = .ok s') :
+    runHistory C (T b) (E b) wn fresh k ((hops.filter (fun hop => hop.1 == b)).map (·.2)) (s b) = .ok (s' b) := by
+  induction hops generalizing s with
+  | nil => simp only [runElems] at h; cases h; rfl
+  | cons hop rest ih =>
+    simp only [runElems] at h
+    cases hq : stepOp C (T hop.1) (E hop.1) wn fresh k (s hop.1) hop.2 with
+    | error e => rw [hq] at h; cases h
+    | ok q =>
+      rw [hq] at h
+      have hi := ih (fun i => if i = hop.1 then q else s i) h
+      by_cases hb : hop.1 = b
+      · subst hb
+        simp only [List.filter_cons, beq_self_eq_true, if_true, List.map_cons, runHistory, hq]
+        simpa using hi
+      · have hb' : (hop.1 == b) = false := by simpa using hb
+        have hb2 : ¬ b = hop.1 := fun e => hb e.symm
+        simp only [List.filter_cons, hb', Bool.false_eq_true, if_false]
+        simpa [hb2] using hi
+
+/-- an element nobody wrote to reads what it read before, whatever was done to the others (in particular to those that
+hold an equal value) -/
+theorem untouched_element_unchanged (C : Codecs V P) (T : Nat → KindTable) (E : Nat → ElemClass) (wn : String → V)
+    (fresh : Fields V) (k : Key) (hops : List (Nat × PropOp V)) (s s' : Nat → Props P) (b : Nat)
+    (hb : ∀ hop ∈ hops, hop.1 ≠ b) (h : runElems C T E wn fresh k hops s = .ok s') : s' b = s b := by
+  have h1 := elements_do_not_share C T E wn fresh k hops s s' b h
+  have h2 : hops.filter (fun hop => hop.1 == b) = [] := by
+    apply List.filter_eq_nil_iff.mpr
+    intro hop hm
+    simpa using hb hop hm
+  rw [h2] at h1
+  simp only [List.map_nil, runHistory] at h1
+  exact (Except.ok.inj h1).symm
+
+/-- ... so on every element the last operation *on that element* decides what it reads, whatever happened to the other
+elements in between -/
+theorem history_last_op_decides_any_element (C : Codecs V P) (T : Nat → KindTable) (hT : ∀ i, T i ∈ tables)
+    (E : Nat → ElemClass) (hE : ∀ i, E i ∈ elemClasses) (b : Nat) (f : FromRow) (hf : f ∈ (T b).fromRows)
+    (hp : f.key ∉ pairKeys) (hx : f.key ∉ unsetExempt) (hid : f.gprop ∉ noUnset) (wn : String → V) (fresh : Fields V)
+    (hops : List (Nat × PropOp V)) (op : PropOp V) (others : List (Nat × PropOp V)) (ho : ∀ hop ∈ others, hop.1 ≠ b)
+    (hok : OpOK C (T b) (E b) f op) (s s' : Nat → Props P)
+    (h : runElems C T E wn fresh f.key (hops ++ (b, op) :: others) s = .ok s') :
+    readRow C (s' b) f = .ok (match op with | .set _ v => some v | .unset _ => none) := by
+  have h1 := elements_do_not_share C T E wn fresh f.key (hops ++ (b, op) :: others) s s' b h
+  have h2 : others.filter (fun hop => hop.1 == b) = [] := by
+    apply List.filter_eq_nil_iff.mpr
+    intro hop hm
+    simpa using ho hop hm
+  rw [List.filter_append, List.filter_cons, h2] at h1
+  simp only [beq_self_eq_true, if_true, List.map_append, List.map_cons, List.map_nil] at h1
+  have h3 := history_last_op_decides C (T b) (hT b) (E b) (hE b) f hf hp hx hid wn fresh _ op hok (s b) (s' b) h1
+  cases op <;> exact h3
+
 end
 
 /-- non-vacuity: `site` of a node set to "A", overwritten by the empty string through the attribute, unset through
@@ -536,6 +611,12 @@ example : ∀ op ∈ siteHistory, OpOK concrete nodeTable elemNode siteFrom op :
 three handles runs to its end -/
 example : (match runHandles concrete nodeTable elemNode (fun c => Val.jdata c "{}") freshFields "site"
     ((List.range siteHistory.length).map (· % 3) |>.zip siteHistory) (Props.empty.set "Name" "n1", fun _ => some (.str "n1"))
+    with | .ok _ => true | .error _ => false) = true := by decide
+
+/-- non-vacuity of `elements_do_not_share` / `history_last_op_decides_any_element`: the same history interleaved over
+two elements (every operation first on element 0, then on element 1, both holding a name only) runs to its end -/
+example : (match runElems concrete (fun _ => nodeTable) (fun _ => elemNode) (fun c => Val.jdata c "{}") freshFields "site"
+    (siteHistory.flatMap (fun op => [(0, op), (1, op)])) (fun _ => Props.empty.set "Name" "n1")
     with | .ok _ => true | .error _ => false) = true := by decide
 
 /-! non-vacuity of the route theorems: the `user_data` attribute of a `Node` (the JSON-blob setter), with a value
